@@ -36,6 +36,9 @@ pub struct Monitors {
     pub prefill_saturated: BTreeSet<u32>,
     /// number of failure losses (connection / heartbeat lost) of a worker that was reported running the task
     expected_crashes: BTreeMap<TaskId, u32>,
+    /// termination time (ms on the harness clock) of every worker with a time limit
+    pub worker_term: BTreeMap<u32, u64>,
+    pub now_ms: u64,
 }
 
 impl Monitors {
@@ -361,6 +364,54 @@ impl Monitors {
         }
     }
 
+    /// C05 "only places tasks where they can run": every single-node placement of a scheduling round goes to a
+    /// worker that does not block that (request, variant), lives long enough for the time request and has the
+    /// requested amounts free (all placements of the round on that worker added up)
+    pub fn placement(&mut self, recs: &[Record], before: &CoreSnapshot, now_ms: u64) {
+        let mut used: BTreeMap<u32, Vec<u64>> = BTreeMap::new();
+        let mut fails = Vec::new();
+        for r in recs {
+            let Record::Sn { rq, variant, counts, .. } = r else { continue };
+            let Some(def) = self.rqs.get(*rq as usize).and_then(|v| v.get(*variant as usize)).cloned() else { continue };
+            for (w, c) in counts {
+                if *c == 0 {
+                    continue;
+                }
+                let Some(wk) = before.workers.iter().find(|x| x.id == *w) else {
+                    fails.push(("c05.placement", "unknown-worker", format!("placement of request {rq}/{variant} on unknown worker {w}")));
+                    continue;
+                };
+                if wk.blocked.contains(&(*rq, *variant)) {
+                    fails.push(("c05.placement", "blocked-request", format!("request {rq}/{variant} placed on worker {w} which blocks it")));
+                }
+                if let Some(t) = self.worker_term.get(w) {
+                    if now_ms + def.min_time_ms > *t {
+                        fails.push(("c05.placement", "not-enough-lifetime", format!("request {rq}/{variant} (time request {} ms) placed on worker {w} with {} ms left", def.min_time_ms, t.saturating_sub(now_ms))));
+                    }
+                }
+                let Some((_, free, _)) = &wk.sn else {
+                    fails.push(("c05.placement", "multi-node-worker", format!("single-node request {rq}/{variant} placed on worker {w} that holds a multi-node task")));
+                    continue;
+                };
+                let u = used.entry(*w).or_insert_with(|| vec![0; free.len()]);
+                for e in &def.entries {
+                    let i = e.resource as usize;
+                    if i >= free.len() {
+                        fails.push(("c05.placement", "resource-not-provided", format!("request {rq}/{variant} needs resource {i} which worker {w} does not provide")));
+                        continue;
+                    }
+                    u[i] += e.amount.unwrap_or(wk.total[i]) * *c as u64;
+                    if u[i] > free[i] {
+                        fails.push(("c05.placement", "more-than-free", format!("placements of this round on worker {w} need {} of resource {i} but only {} is free", u[i], free[i])));
+                    }
+                }
+            }
+        }
+        for (c, s, d) in fails {
+            self.fail(c, s, d);
+        }
+    }
+
     /// C14: when the job layer hands back a cancel list, the whole job is terminal afterwards
     pub fn max_fails(&mut self, task: TaskId, ret: &[TaskId], jobs: &[JobSnap]) {
         if ret.is_empty() {
@@ -400,6 +451,7 @@ impl Monitors {
                                 groups.values().any(|c| *c >= v.n_nodes)
                             } else {
                                 snap.workers.iter().any(|w| {
+                                    self.worker_term.get(&w.id).is_none_or(|t| self.now_ms + v.min_time_ms <= *t) &&
                                     v.entries.iter().all(|e| {
                                         let tot = w.total.get(e.resource as usize).copied().unwrap_or(0);
                                         match e.amount {
